@@ -53,18 +53,9 @@ class SymtableCodeGen(AbstractCodeGen):
     baseTypes = ['Integer', 'Integer32', 'Bits', 'ObjectIdentifier', 'OctetString']
 
     typeClasses = {
-        'COUNTER32': 'Counter32',
-        'COUNTER64': 'Counter64',
-        'GAUGE32': 'Gauge32',
         'INTEGER': 'Integer32',  # XXX
-        'INTEGER32': 'Integer32',
-        'IPADDRESS': 'IpAddress',
-        'NETWORKADDRESS': 'IpAddress',
         'OBJECT IDENTIFIER': 'ObjectIdentifier',
         'OCTET STRING': 'OctetString',
-        'OPAQUE': 'Opaque',
-        'TIMETICKS': 'TimeTicks',
-        'UNSIGNED32': 'Unsigned32',
         'Counter': 'Counter32',
         'Gauge': 'Gauge32',
         'NetworkAddress': 'IpAddress',  # RFC1065-SMI, RFC1155-SMI -> SNMPv2-SMI
